@@ -100,6 +100,12 @@ int main(int argc, char** argv) {
         std::vector<size_t> big = T ? std::vector<size_t>{5u << 20, 6u << 20, 8u << 20, 16u << 20, 48u << 20} : std::vector<size_t>{8u << 20};
         for (size_t s : big) for (int c : {0, 2}) { if (c == 2 && comp == 2 && s > (8u << 20) ) continue; tasks.push_back({comp, sink, {{0, s, c}}, false}); if (T || c == 0) tasks.push_back({comp, sink, {{0, 3, 1}, {1, 0, 0}, {0, s, c}, {0, 1, 1}}, false}); }
     }
+    // chunking sweep: the same 600 KiB written in chunks of one size (every write after enough data has accumulated for the codec to emit large outputs)
+    { std::vector<size_t> chunks = {1, 2, 3, 7, 100, 1000, 2047, 2048, 2049, 2975, 2976, 2977, 3000, 3500, 4095, 4096, 4097, 5000, 8191, 8192, 8193, 65535, 65536, 100000};
+      if (!T) chunks = {1, 100, 2048, 2976, 3000, 3500, 4096, 4097, 8192, 65536};
+      size_t total_bytes = 600u << 10;
+      for (int comp = 1; comp <= 2; comp++) for (int sink = 0; sink < 2; sink++) for (size_t c : chunks) for (int cls : {1, 2}) { if (!T && sink == 1 && (c == 1 || c == 100)) continue; if (c <= 3 && comp == 2 && cls == 1) continue;
+          std::vector<Step> st; for (size_t done_ = 0; done_ < total_bytes; done_ += c) st.push_back({0, std::min(c, total_bytes - done_), cls}); tasks.push_back({comp, sink, st, false}); } }
     Pool pool(a.jobs, 900);
     pool.run(tasks.size(), [&](uint64_t ti, Result& R) {
         if (a.expired()) { R.deadline_hit = true; return; }
